@@ -17,7 +17,7 @@ import sys
 import time
 
 VERIF = os.path.dirname(os.path.dirname(os.path.abspath(__file__)))
-BASELINE = (372, 5)
+BASELINE = (377, 0)
 
 
 def sh(cmd, cwd=None, env=None, timeout=3600):
